@@ -73,34 +73,56 @@ def install_counters(taps: Taps, ctx: Ctx) -> None:
     taps.method(or_mod.DynamicObjectWithPerceptionResult, "is_result_correct", f)
 
 
+def evaluate_at(ctx: Ctx, results: List[Any], gts: List[Any], mode: MatchingMode, t: float, shared: Dict[Any, List[Any]]) -> Dict[str, Any]:
+    n_lab = len(LABELS)
+    thr_list: List[Any] = [t] * n_lab
+    if float(np.float32(t)) == t:
+        # the same numbers as numpy scalars (what indexing a numpy array of thresholds yields): real numbers like any other
+        thr_list = [np.float32(t) if k % 2 == 0 else (np.int64(t) if float(t).is_integer() and abs(t) < 2**31 else t) for k in range(n_lab)]
+        ctx.count("C08.numpy_scalar_thresholds")
+    correct = []
+    for res in results:
+        thr = matching.label_threshold(res.ground_truth_object if res.ground_truth_object is not None else res.estimated_object, LABELS, thr_list)
+        correct.append(bool(res.is_result_correct(mode, thr)) if thr is not None else None)
+    tp, fp = of_mod.get_positive_objects(results, LABELS, mode, thr_list)
+    tn, fn = of_mod.get_negative_objects(gts, results, LABELS, mode, thr_list)
+    ngt = {l: sum(1 for g in gts if g.semantic_label.label == l) for l in LABELS}
+    m = Map(object_results_dict=shared, num_ground_truth_dict=ngt, target_labels=LABELS, matching_mode=mode, matching_threshold_list=thr_list)
+    return dict(t=t, correct=correct, n_tp=len(tp), n_fn=len(fn), aps=[a.ap for a in m.aps], aphs=[a.ap for a in m.aphs], map=m.map, maph=m.maph)
+
+
 def chain_on_results(ctx: Ctx, results: List[Any], gts: List[Any], mode: MatchingMode, chain: List[float], info: Dict[str, Any]) -> int:
     """Returns the number of flips along the chain."""
     tap = "comparator"
-    n_lab = len(LABELS)
     prev = None
     flips = 0
-    for t in chain:
-        thr_list = [t] * n_lab
-        if float(np.float32(t)) == t:
-            # the same numbers as numpy scalars (what indexing a numpy array of thresholds yields): real numbers like any other
-            thr_list = [np.float32(t) if k % 2 == 0 else (np.int64(t) if float(t).is_integer() and abs(t) < 2**31 else t) for k in range(n_lab)]
-            ctx.count("C08.numpy_scalar_thresholds")
-        correct = []
-        for res in results:
-            thr = matching.label_threshold(res.ground_truth_object if res.ground_truth_object is not None else res.estimated_object, LABELS, thr_list)
-            correct.append(bool(res.is_result_correct(mode, thr)) if thr is not None else None)
-        tp, fp = of_mod.get_positive_objects(results, LABELS, mode, thr_list)
-        tn, fn = of_mod.get_negative_objects(gts, results, LABELS, mode, thr_list)
-        by_label: Dict[Any, List[Any]] = {l: [] for l in LABELS}
-        for res in results:
-            lab = res.estimated_object.semantic_label.label
-            if lab not in by_label and res.ground_truth_object is not None:
-                lab = res.ground_truth_object.semantic_label.label
-            if lab in by_label:
-                by_label[lab].append(res)
-        ngt = {l: sum(1 for g in gts if g.semantic_label.label == l) for l in LABELS}
-        m = Map(object_results_dict={l: list(v) for l, v in by_label.items()}, num_ground_truth_dict=ngt, target_labels=LABELS, matching_mode=mode, matching_threshold_list=thr_list)
-        cur = dict(t=t, correct=correct, n_tp=len(tp), n_fn=len(fn), aps=[a.ap for a in m.aps], aphs=[a.ap for a in m.aphs], map=m.map, maph=m.maph)
+    # The same per-label result lists are handed to every evaluation of the chain, and the evaluations are made in an
+    # order of their own (loosest first on every other chain); the comparison below walks the chain tight -> loose.
+    shared: Dict[Any, List[Any]] = {l: [] for l in LABELS}
+    for res in results:
+        lab = res.estimated_object.semantic_label.label
+        if lab not in shared and res.ground_truth_object is not None:
+            lab = res.ground_truth_object.semantic_label.label
+        if lab in shared:
+            shared[lab].append(res)
+    shared_before = {l: list(v) for l, v in shared.items()}
+    results_before = list(results)
+    order = list(range(len(chain)))
+    if (len(results) + len(gts)) % 2 == 1:
+        order.reverse()
+    computed: Dict[int, Dict[str, Any]] = {}
+    for k in order:
+        computed[k] = evaluate_at(ctx, results, gts, mode, chain[k], shared)
+        ctx.count("C08.shared_lists_checked")
+        # (the library sorts a flat per-label list by confidence in place: a reordering is not a change of the results)
+        same = all(sorted(map(id, shared[l])) == sorted(map(id, shared_before[l])) for l in LABELS)
+        same = same and len(results) == len(results_before) and all(x is y for x, y in zip(results, results_before))
+        ctx.check(same, "C08/evaluation_at_one_threshold_removes_or_adds_results", dict(info, threshold=chain[k], sizes={str(l): (len(shared_before[l]), len(shared[l])) for l in LABELS}), tap)
+        if not same:
+            shared = {l: list(v) for l, v in shared_before.items()}
+    for k, t in enumerate(chain):
+        cur = computed[k]
+        correct = cur["correct"]
         if prev is not None:
             for i, (a, b) in enumerate(zip(prev["correct"], correct)):
                 if a is None:
